@@ -224,7 +224,7 @@ class Tree:
             self._canonical_locals("local_names_norm.json")
 
     def _normalise_bodies(self):
-        from .normalise import inline_aliases, loops_to_comprehensions, positive_ifexps, unroll_literal_loops, updates_to_loops, inline_single_use_temps, forward_attr_stores, searches_to_loops, genexp_loops, split_webs, ifexp_to_if, default_none_gets, while_true_breaks, integer_attributes, explicit_to_augmented, hoist_walrus, push_not, or_defaults, split_chained_assignments, split_tuple_assignments, merge_nested_withs, conditional_iter_loops, index_while_to_for, strip_annotations, list_literal_augments, joinpaths, sink_returns, drop_self_assignments, operator_getters, dict_key_loops, index_to_unpack, inline_method_aliases, len_truthiness
+        from .normalise import inline_aliases, loops_to_comprehensions, positive_ifexps, unroll_literal_loops, updates_to_loops, inline_single_use_temps, forward_attr_stores, searches_to_loops, genexp_loops, split_webs, ifexp_to_if, default_none_gets, while_true_breaks, integer_attributes, explicit_to_augmented, hoist_walrus, push_not, or_defaults, split_chained_assignments, split_tuple_assignments, merge_nested_withs, conditional_iter_loops, index_while_to_for, strip_annotations, list_literal_augments, list_augments, conditional_max, joinpaths, sink_returns, drop_self_assignments, operator_getters, dict_key_loops, index_to_unpack, inline_method_aliases, len_truthiness
 
         self.normalised: List[str] = []
         int_attrs = integer_attributes([m.tree for m in self.modules.values() if not m.is_test()])
@@ -239,6 +239,8 @@ class Tree:
             dict_key_loops(f.node)
             index_to_unpack(f.node)
             list_literal_augments(f.node)
+            list_augments(f.node)
+            conditional_max(f.node)
             joinpaths(f.node)
             default_none_gets(f.node)
             split_chained_assignments(f.node)
